@@ -793,6 +793,12 @@ pub fn misc_driver(data: &[u8], _ctx: &[Vec<u8>], a: [u32; 3], w: &mut Walker) {
                 for m in t.data_maps().iter().take(32) {
                     match m.data(t.offset_data()) {
                         Ok(read_fonts::tables::meta::Metadata::ScriptLangTags(tags)) => {
+                            crate::drivers::varlen_obs(
+                                "VarLenArray<ScriptLangTag>::get vs iter",
+                                &tags,
+                                |r| r.as_ref().map(|s| s.as_str().to_string()).map_err(|e| format!("{e:?}")),
+                                w,
+                            );
                             let mut k = 0u64;
                             for s in tags.iter().take(4096) {
                                 k += 1;
